@@ -306,6 +306,34 @@ var Scenarios = []Scenario{
 		}
 		c.Close()
 	}},
+	{"linger-zero-close-resets-and-drops-unsent-data", func(e env, l *log) {
+		ln, c, s := pair(e)
+		defer ln.Close()
+		type bufs interface {
+			SetReadBuffer(int) error
+			SetWriteBuffer(int) error
+			SetLinger(int) error
+		}
+		c.(bufs).SetReadBuffer(4096)
+		s.(bufs).SetWriteBuffer(1 << 20)
+		s.(bufs).SetLinger(0)
+		big := make([]byte, 256<<10)
+		n, err := s.Write(big)
+		l.add("server write complete=%v %s", n == len(big), class(err))
+		s.Close() // nothing unread, but linger 0: RST, the unsent part is gone
+		e.settle()
+		buf := make([]byte, 4096)
+		total := 0
+		for {
+			n, err := c.Read(buf)
+			total += n
+			if err != nil {
+				l.add("client read some=%v all=%v end=%s", total > 0, total == len(big), class(err))
+				break
+			}
+		}
+		c.Close()
+	}},
 	{"orderly-close-delivers-everything-queued", func(e env, l *log) {
 		ln, c, s := pair(e)
 		defer ln.Close()
@@ -336,6 +364,21 @@ var Scenarios = []Scenario{
 			_, err6 := pc.WriteTo([]byte("x"), v6dst)
 			l.add("%s: to IPv4 ok=%v, to IPv6 ok=%v", network, err4 == nil, err6 == nil)
 			pc.Close()
+		}
+	}},
+	{"udp-payload-limit-is-65507-over-ipv4-and-65527-over-ipv6", func(e env, l *log) {
+		pc, err := e.listenUDPNet("udp", "")
+		if err != nil {
+			l.add("listen: %s", class(err))
+			return
+		}
+		defer pc.Close()
+		v4dst := &net.UDPAddr{IP: net.IPv4(127, 0, 0, 1), Port: 9}
+		v6dst := &net.UDPAddr{IP: net.ParseIP("::1"), Port: 9}
+		for _, n := range []int{65507, 65508, 65527, 65528} {
+			_, err4 := pc.WriteTo(make([]byte, n), v4dst)
+			_, err6 := pc.WriteTo(make([]byte, n), v6dst)
+			l.add("%d bytes: to IPv4 %s, to IPv6 %s", n, class(err4), class(err6))
 		}
 	}},
 	{"close-without-unread-data-is-fin", func(e env, l *log) {
